@@ -120,7 +120,8 @@ RunFails(r, from) ==
      \* blocks may be missing only below the hand-off (production back-fill) and only when their output is empty
      \* (a block-index module requested as output is only BUILT while back-filling - "no ReadExecOut if output type is an
      \*  index", orchestrator/parallelprocessor.go -: nothing below the hand-off is streamed for it, by design)
-  \o F(o.err # "" \/ \A n \in S2..(E - 1) : n \in nums \/ (c.prod /\ n < H /\ n <= MaxBlock /\
+     \* (blocks above MaxBlock are beyond the reference execution: nothing is claimed about them)
+  \o F(o.err # "" \/ \A n \in S2..(E - 1) : n \in nums \/ n > MaxBlock \/ (c.prod /\ n < H /\ n <= MaxBlock /\
                                                        (PayloadOf(Res(n), OutOf(r).name) = <<>> \/ OutOf(r).kind = "index")),
        "block_missing")
   \o F(o.err # "" \/ ~o.hasmap \/ E > MaxBlock \/
